@@ -1,14 +1,14 @@
 //! vx_enc: see /verif/harness/AGENTS-GUIDE.md; one module per property, dispatched on the property id.
+mod c28;
 
 use vcore::{machinery_error, Ctx};
 
 fn main() {
     let ctx = Ctx::from_args();
     vcore::quiet_panics();
-    #[allow(clippy::match_single_binding)]
     let out: vcore::Outcome = match ctx.id.as_str() {
+        "C28" => c28::run(&ctx),
         other => machinery_error(&format!("vx_enc does not implement {other}")),
     };
-    #[allow(unreachable_code)]
     vcore::finish(&ctx, out);
 }
